@@ -23,7 +23,13 @@ TRUSTED_CORE = [
     "assumed contract of list.sort/sorted(key=...): stable permutation ordered by key (DESIGN 4.2)",
     "assumed facts about len() of a Python set: non-negative, zero iff empty, and len(A) = |A ∩ [0,n)| for A ⊆ [0,n) (DESIGN 3.6)",
 ]
-STORAGE_ASSUMED = "abstract Storage contract (DESIGN 3.3: iteration yields `items`, append/swap/reset/temp as specified, deserialisation = dec): assumed for database.py; MemoryStorage/CSVStorage refinement is not proved in this round (KF-18 is the one known deviation of MemoryStorage: it hands out its own objects)"
-QUERY_ASSUMED = "query objects: q(point) is total and equals the meaning function sem (C09); for index-eligible simple queries (truthy hash) the path/test closures behave as summarised in contracts/model.py query_axioms (to be discharged on queries.py under C09)"
+STORAGE_ASSUMED = ("abstract Storage contract (DESIGN 3.3: iteration yields `items`, append/swap/reset/temp as specified, deserialisation = dec): database.py is verified against it. "
+                   "MemoryStorage's methods (append, __len__, _init/_cleanup_temp_storage, _swap_temp_with_primary, _write, reset, the three (de)serialisers) are PROVED to refine it, clause by clause, "
+                   "over values (object identity / aliasing is not modelled: KF-18 is the known deviation, MemoryStorage hands out its own objects); its two-line generator __iter__ and read() are read, not proved. "
+                   "CSVStorage is proved against the I/O effect model (C04/C12/C13/C15/C16) whose postconditions match these clauses by inspection; CSVStorage.__iter__ is not under contract")
+MS_ = "tinyflux.storages.MemoryStorage."
+MEM_REFINEMENT = [MS_ + f for f in ("append", "__len__", "_init_temp_storage", "_cleanup_temp_storage", "_swap_temp_with_primary", "_write", "reset",
+                                    "_deserialize_storage_item", "_deserialize_measurement", "_serialize_point")]
+QUERY_ASSUMED = "query objects: q(point) is total and equals the meaning function sem (C09); for index-eligible simple queries (truthy hash) the path/test closures behave as summarised in contracts/model.py query_axioms (discharged on queries.py under C09/C17)"
 TIME_ASSUMED = "datetime: aware datetimes compare by instant = comparison of timestamp(); fromtimestamp(ts).astimezone(utc) restores a stored datetime (DESIGN 4.3, validated under C08)"
 A_ALIAS = "A-alias: containers inside Index/TinyFlux are not shared; a loop that writes through the container it iterates only replaces the value of the key being visited"
